@@ -646,9 +646,12 @@ class Mesh:
             logger.debug(msg)
             return False
 
-        # check that all points are at least in some element
+        # check that all points are at least in some element; the extra
+        # nodes of a high-order mesh are listed in the DOF table only
+        nodes = (self.t if self.elem().doflocs.shape[0] == self.t.shape[0]
+                 else self.dofs.element_dofs)
         if len(np.setdiff1d(np.arange(self.p.shape[1]),
-                            np.unique(self.t))) > 0:
+                            np.unique(nodes))) > 0:
             msg = "Mesh contains a vertex not belonging to any element."
             if raise_:
                 raise ValueError(msg)
